@@ -309,6 +309,8 @@ def gen_item(args):
             cc = crosscheck(eng, it, seed, 60 if tier == 'quick' else 400)
             out['crosscheck'] = cc
         elif isinstance(it, Custom):
+            if it.targets:
+                out['function'] = custom_function_record(repo, it)
             for suffix, hyps, claim in it.build(repo):
                 nm = '%s[%s]' % (it.name, suffix) if suffix else it.name
                 rec = ObRec('%s/%s' % (prop, nm), nm, 'lemma', None, idx)
@@ -327,13 +329,30 @@ def gen_item(args):
     except Unsupported as e:
         out['unsupported'] = ('%s/%s' % (prop, it.name), 'unsupported: %s' % e)
         try:
-            m_, _c, fdef_ = repo.find_function(it.target[0], it.target[1])
-            out['unsupported_sha'] = func_hash(m_, fdef_)
+            if isinstance(it, Custom):
+                out['unsupported_sha'] = custom_function_record(repo, it)['source_sha'] if it.targets else None
+                out['function'] = None
+            else:
+                m_, _c, fdef_ = repo.find_function(it.target[0], it.target[1])
+                out['unsupported_sha'] = func_hash(m_, fdef_)
         except Exception:
             out['unsupported_sha'] = None
     except CheckerDefect as e:
         out['error'] = 'CHECKER-DEFECT %s' % e
     return out
+
+
+def custom_function_record(repo, it):
+    """the real functions a Custom item reads its obligations from (AST-decided frame / ordering / call-site conditions): one record, hashed over all of them"""
+    import hashlib
+    hs, first = [], None
+    for rel, qual in it.targets:
+        m_, _c, fdef_ = repo.find_function(rel, qual)
+        hs.append(func_hash(m_, fdef_))
+        first = first or fdef_
+    return dict(file=it.targets[0][0], function=', '.join(q for _r, q in it.targets), line_from=first.lineno, line_to=first.end_lineno,
+                source_sha=hashlib.sha256('|'.join(hs).encode()).hexdigest()[:16], contract=it.name, paths=0, forks=0, dropped=[], inlined=[],
+                callee_contracts=[], fragment=True, note=it.note)
 
 
 def check_property(prop, tier='quick', seed=0, only=None):
@@ -500,7 +519,7 @@ def check_property(prop, tier='quick', seed=0, only=None):
     return res, mod
 
 
-def _bounded_worker(args):
+def _bounded_worker(args, attempt=0):
     prop, tier, sd, part = args
     import importlib
     import inspect
@@ -524,6 +543,9 @@ def _bounded_worker(args):
                         rule='the bounded exploration was aborted by an exception raised inside the code under test',
                         violations=[dict(key='the code under test raised %s at %s during the bounded exploration' % (type(e).__name__, where),
                                          observed=text, required='the exploration completes as it does on the unchanged tree (no unexpected exception from the code under test)')])
+        if isinstance(e, OSError) and attempt == 0:
+            # a socket-level error inside the harness itself (a connection reset or a timeout of its own sockets on a busy machine): once more, from scratch
+            return _bounded_worker(args, attempt=1)
         return dict(evaluations=0, distinct_nontrivial=0, distinct_keys=[], rule='', samples=[], violations=[],
                     crashed='seed %d: %s: %s\n%s' % (sd, type(e).__name__, e, text))
 
